@@ -68,3 +68,24 @@ PROPS["C17"] = {
                          "tiers": {"quick": T(150, 4, timeout=400), "thorough": T(3000, 6, timeout=3000)}},
     },
 }
+
+PROPS["C14"] = {
+    "level": "exploration",
+    "technique": "differential property testing vs miekg/dns (KeyTag, ToDS, RRSIG.Verify) and plain math/big RSA over an independent RFC 4034 canonicaliser; coverage-guided native fuzzing of the same oracles in the thorough tier",
+    "level_text": ("Generated keys (all algorithms, RSA moduli of 1016..8192 bits with exponents 3..2^128+1, wrapped/padded/malformed base64), RRsets (15 types, case mixes, duplicates, unordered, wildcard expansions, OrigTTL != TTL) and signatures "
+                   "(valid, bit-flipped, truncated, widened, swapped) are judged two-directionally against the library and against big-integer arithmetic; documented stricter classes must be rejected; nothing may panic. Exploration: sampled inputs."),
+    "level_note": "Trusted: miekg/dns KeyTag/ToDS/Verify, math/big, crypto/ecdsa, crypto/ed25519 as references; the harness canonicaliser is cross-checked against the library on every case both can judge (disagreement => inconclusive, not a finding). Timing is reported only.",
+    "rule": ("evaluations = generated (key, rrset, signature) or (key, digest) cases. Non-trivial (signatures) = the RFC binding preflight passed in the reference, so the verdict depended on cryptography or an encoding corner; "
+             "(keytag/ds) = a DS matched, the key was wrapped/multi-chunk or the base64 was malformed; distinct = hash(mutation list, strict classes, verdict, rr type, set size)."),
+    "assumptions": ["GOST/ED448 and other algorithms the library cannot sign with appear only as 'unsupported'", "super-linear-time clause is a reported canary (slowest case), not asserted"],
+    "units": {
+        "keytag_ds": {"pkg": "./middleware/resolver/dnssec", "run": "^TestVerifC14KeyTagDS$",
+                      "tiers": {"quick": T(12000, 4, timeout=400), "thorough": T(400000, 8, timeout=3000)},
+                      "floors": {"C14.keytag_ds": {"rsamd5": 0.05, "wrapped": 0.05, "multi-chunk": 0.2}}},
+        "signatures": {"pkg": "./middleware/resolver/dnssec", "run": "^TestVerifC14Signatures$",
+                       "tiers": {"quick": T(2500, 8, timeout=600), "thorough": T(60000, 12, timeout=3400)},
+                       "floors": {"C14.signatures": {"accepted": 0.1, "wide-exponent-accepted": 0.01, "wildcard-accepted": 0.01, "strict-class": 0.1}}},
+        "hostile": {"pkg": "./middleware/resolver/dnssec", "run": "^TestVerifC14Hostile$",
+                    "tiers": {"quick": T(3000, 2, timeout=400), "thorough": T(60000, 4, timeout=3000)}},
+    },
+}
